@@ -530,6 +530,11 @@ func (t *TableAliasStmtInfo) getAliasTable(alias string) (string, bool) {
 	return table, ok
 }
 
+// (generateShardingSQLs names its *router.Router parameter "router", hence this helper)
+func isGlobalTableRule(rule router.Rule) bool {
+	return rule.GetType() == router.GlobalTableRuleType
+}
+
 // TODO: 删除该函数
 // 根据StmtNode和路由信息生成分片SQL
 func generateShardingSQLs(stmt ast.StmtNode, result *RouteResult, router *router.Router) (map[string]map[string][]string, error) {
@@ -554,6 +559,12 @@ func generateShardingSQLs(stmt ast.StmtNode, result *RouteResult, router *router
 		if !ok {
 			sliceSQLs = make(map[string][]string)
 			ret[sliceName] = sliceSQLs
+		}
+
+		// a global table without a "databases" list has several table indexes on one
+		// slice that all name the same physical table: the statement goes there once
+		if isGlobalTableRule(rule) && len(ret[sliceName][dbName]) > 0 {
+			continue
 		}
 
 		ret[sliceName][dbName] = append(ret[sliceName][dbName], sb.String())
